@@ -289,9 +289,24 @@ def check_wired(case, acc, prop):
     fm = ZeroFeeModel() if fee[0] == 'zero' else PercentFeeModel(commission_pct=fee[1], tax_pct=fee[2])
     start, end = bw.ts('2021-03-01 00:00:00'), bw.ts('2021-03-31 23:59:00')
     kw = {'cash_buffer_percentage': case['buffer']} if long_only else {'gross_leverage': case['leverage']}
-    sess = BacktestTradingSession(start, end, StaticUniverse(sorted(case['weights'])), FixedSignalsAlphaModel(dict(case['weights'])),
-                                  initial_cash=case['equity'], rebalance='daily', long_only=long_only, fee_model=fm,
-                                  data_handler=book, **kw)
+    def make(kw_):
+        return BacktestTradingSession(start, end, StaticUniverse(sorted(case['weights'])), FixedSignalsAlphaModel(dict(case['weights'])),
+                                      initial_cash=case['equity'], rebalance='daily', long_only=long_only, fee_model=fm,
+                                      data_handler=book, **kw_)
+    bad = None
+    if 'wired_invalid' in case:
+        bad = {'cash_buffer_percentage': case['wired_invalid']} if long_only else {'gross_leverage': case['wired_invalid']}
+    if bad is not None:
+        try:
+            make(bad)
+        except ValueError:
+            acc.count('%s:wired_rejections' % prop)
+            return
+        except Exception as e:
+            raise Violation(prop, 'wired/reject-wrong-type/%s' % type(e).__name__, 'BacktestTradingSession(%s) raised %r' % (bad, e), {})
+        raise Violation(prop, 'wired/invalid-parameter-accepted', 'BacktestTradingSession(%s) was accepted: the invalid value never '
+                        'reached the sizer\'s own check' % (bad,), {})
+    sess = make(kw)
     tr = sesswl.Trace()
     sesswl.CUR[0] = tr
     try:
@@ -394,6 +409,9 @@ def gen_case(rng, long_only):
         w = {a: 0.0 for a in assets}
     elif shape < 0.12:
         w = {a: rng.choice([0.0, 1e-13]) for a in assets}
+    near = shape >= 0.12 and rng.random() < 0.12
+    if near:
+        equity = float(rng.choice([2.5e8, 1e9, 7.5e8]))       # large enough for 1e-5 of the allocation to be many shares
     case = {'prices': prices, 'equity': equity, 'fee': fee, 'weights': w}
     if long_only:
         case['buffer'] = rng.choice([0.0, 0.05, 0.05, 1.0, 0.5, round(rng.random(), 4)])
@@ -405,6 +423,17 @@ def gen_case(rng, long_only):
         if shape >= 0.12 and rng.random() < 0.1 and n >= 2:
             # zero NET but non-zero gross exposure
             w[assets[0]], w[assets[1]] = 0.5, -0.5
+    if near and any(x != 0 for x in w.values()):
+        # weights that are ALMOST normalised (to 1, or to the leverage): normalised by hand and truncated to 5-6 decimals
+        target = 1.0 if long_only else case['leverage']
+        g = sum(abs(x) for x in w.values())
+        nd = rng.choice([5, 5, 6])
+        for a in w:
+            w[a] = round(w[a] * target / g, nd)
+        k0 = sorted(w)[0]
+        if sum(abs(x) for x in w.values()) == target:
+            w[k0] += 10.0 ** -nd * (1 if w[k0] >= 0 else -1)
+        case['near_normalised'] = True
     inv = rng.random()
     if inv >= 0.12 and rng.random() < 0.35:
         more = []
@@ -467,6 +496,8 @@ def shard(spec, acc, prop):
             case['wired'] = True
             if long_only and rng.random() < 0.4:
                 case['buffer'] = rng.choice([0.0, 1.0])
+            if rng.random() < 0.3:
+                case['wired_invalid'] = rng.choice([-0.01, 1.01, 2.0]) if long_only else rng.choice([0.0, 0, -1.0, -0.001])
         if i % 400 == 11:
             core.guarded(prop, acc, {'kind': 'csv-gap'}, check_csv_gap, acc, prop, rng)
         run_case(case, acc, prop)
